@@ -86,6 +86,7 @@ type c14Case struct {
 		ReqClass string `json:"reqClass"`
 		ErrMode  string `json:"errMode"`
 		Gate     string `json:"gate"`
+		Opt      string `json:"opt"`
 	} `json:"cfg"`
 	Script []c14Call `json:"script"`
 }
@@ -180,6 +181,8 @@ func c14Run(c *Case) []any {
 	opts := []openapi3filter.ValidatorOption{
 		openapi3filter.Strict(tc.Cfg.Strict),
 		openapi3filter.ValidationOptions(openapi3filter.Options{
+			IncludeResponseStatus: tc.Cfg.Opt == "include_status",
+			ExcludeResponseBody:   tc.Cfg.Opt == "exclude_body",
 			AuthenticationFunc: func(_ context.Context, in *openapi3filter.AuthenticationInput) error {
 				if in.RequestValidationInput.Request.Header.Get("X-Key") == "good" {
 					return nil
@@ -211,6 +214,8 @@ func c14Run(c *Case) []any {
 	}
 	handler := http.HandlerFunc(func(w http.ResponseWriter, _ *http.Request) {
 		log = append(log, map[string]any{"ev": "Enter"})
+		// like io.CopyBuffer: every piece goes through one reused buffer (io.Writer implementations must not retain p)
+		chunk := make([]byte, 64)
 		for _, call := range tc.Script {
 			log = append(log, map[string]any{"ev": "H", "c": c14CallJSON(call)})
 			switch call.C {
@@ -219,7 +224,8 @@ func c14Run(c *Case) []any {
 			case "WH":
 				w.WriteHeader(call.S)
 			case "W":
-				w.Write([]byte(c14Bytes[call.Tok]))
+				n := copy(chunk, c14Bytes[call.Tok])
+				w.Write(chunk[:n])
 			case "F":
 				if f, ok := w.(http.Flusher); ok {
 					f.Flush()
